@@ -135,27 +135,237 @@ func (p *fsParent) del(ns, name string) bool {
 	return true
 }
 
+// fsChooser abstracts the source of the choices of one model case: rapid's
+// generators (random search, shrinking) or an odometer over the whole choice
+// tree (bounded-exhaustive enumeration).
+type fsChooser interface {
+	intn(label string, lo, hi int) int // inclusive bounds
+}
+
+type fsRapidChooser struct{ t *rapid.T }
+
+func (c fsRapidChooser) intn(label string, lo, hi int) int {
+	return rapid.IntRange(lo, hi).Draw(c.t, label)
+}
+
+// fsEnumChooser replays a vector of choices, extends it with the lowest value
+// of every further choice, and records the bounds so that the driver can
+// advance it like an odometer.
+type fsEnumChooser struct {
+	vec    []int
+	bounds [][2]int
+	pos    int
+}
+
+func (c *fsEnumChooser) intn(label string, lo, hi int) int {
+	if c.pos < len(c.vec) {
+		v := c.vec[c.pos]
+		c.bounds = append(c.bounds, [2]int{lo, hi})
+		c.pos++
+		return v
+	}
+	c.vec = append(c.vec, lo)
+	c.bounds = append(c.bounds, [2]int{lo, hi})
+	c.pos++
+	return lo
+}
+
+// next advances the odometer; false when the tree is exhausted.
+func (c *fsEnumChooser) next() bool {
+	for i := len(c.vec) - 1; i >= 0; i-- {
+		if c.vec[i] < c.bounds[i][1] {
+			c.vec = append(c.vec[:i:i], c.vec[i]+1)
+			c.bounds, c.pos = nil, 0
+			return true
+		}
+	}
+	return false
+}
+
+type fsCfg struct {
+	keys               [][2]string
+	labelSets          []map[string]string
+	filters            []int // indexes into the tree filter family
+	minSteps, maxSteps int
+	maxInitial         int
+	maxBurst           int
+	maxDuring          int
+	delOneIn           int // a publish is a delete with probability 1/delOneIn
+}
+
+type fsFailer interface {
+	Fatalf(format string, args ...interface{})
+}
+
+type fsCaseInfo struct {
+	hist       []string
+	windows    int
+	refilters  int
+	deferReady bool
+	baseline   bool
+}
+
 func TestC06_FilterSubscriptionModel(t *testing.T) {
-	fam := treeFilterFamily()
+	cfg := fsCfg{
+		keys:      [][2]string{{"a", "p"}, {"a", "q"}, {"b", "p"}, {"b", "q"}},
+		labelSets: []map[string]string{nil, {"x": "1"}, {"x": "2"}},
+		filters:   []int{0, 1, 2, 3, 4, 5, 6, 7, 8, 9},
+		minSteps:  3, maxSteps: 16, maxInitial: 4, maxBurst: 6, maxDuring: 3, delOneIn: 4,
+	}
 	rapid.Check(t, func(t *rapid.T) {
+		info := fsModelCase(t, fsDrawScript(fsRapidChooser{t}, cfg), rapid.Bool().Draw(t, "perturb"), rapid.Uint64().Draw(t, "pseed"))
+		statCase("C06", hashString("fsmodel;"+strings.Join(info.hist, ";")), info.windows > 0 && info.refilters > 0, func() interface{} {
+			return map[string]interface{}{"mode": "filter subscription over a harness-owned parent", "history": info.hist}
+		}, "filter_subscription_model", fmt.Sprintf("fsmodel_for_filter=%v", info.deferReady), fmt.Sprintf("fsmodel_list_windows=%d", min(info.windows, 3)), fmt.Sprintf("fsmodel_exact_baseline=%v", info.baseline))
+	})
+}
+
+// TestC06_FilterSubscriptionEnum: the whole choice tree of the model over a
+// small domain - one key, labels {x=1, x=2}, filters {accept-all, x=1, x=2},
+// for-filter or not, 0-1 initial objects, every sequence of exactly two
+// (VERIF_FSENUM_STEPS) operations from {publish, burst of two, parent readiness (plain / List held
+// with 0-1 events meanwhile, snapshot at call / at release), Refilter to each
+// filter (same variants)}, then whatever is still needed to make the node
+// ready.  Sharded by the first choices.
+func TestC06_FilterSubscriptionEnum(t *testing.T) {
+	cfg := fsCfg{
+		keys:      [][2]string{{"a", "p"}},
+		labelSets: []map[string]string{{"x": "1"}, {"x": "2"}},
+		filters:   []int{0, 1, 2},
+		minSteps:  2, maxSteps: 2, maxInitial: 1, maxBurst: 2, maxDuring: 1, delOneIn: 2,
+	}
+	if n := envInt("VERIF_FSENUM_STEPS", 2); n != 2 {
+		cfg.minSteps, cfg.maxSteps = n, n
+	}
+	shard, nshards := shardOf()
+	stride := envInt("VERIF_ENUM_STRIDE", 1)
+	offset := envInt("VERIF_SEED", 1) % stride
+	ch := &fsEnumChooser{}
+	var cases, run int64
+	ft := &testFailer{t: t, prop: "C06", test: "TestC06_FilterSubscriptionEnum"}
+	for {
+		sc := fsDrawScript(ch, cfg)
+		if int(cases)%nshards == shard && (int(cases)/nshards)%stride == offset {
+			ft.ctx = fmt.Sprintf("choices %v", ch.vec)
+			info := fsModelCase(ft, sc, false, 1)
+			run++
+			statCase("C06", hashString("fsenum;"+strings.Join(info.hist, ";")), info.windows > 0, func() interface{} {
+				return map[string]interface{}{"mode": "filter subscription model, enumerated", "history": info.hist}
+			}, "filter_subscription_enum")
+		}
+		cases++
+		if !ch.next() {
+			break
+		}
+	}
+	if shard == 0 {
+		statLabel("C06", "fsenum_cases_in_tree", cases)
+		what := fmt.Sprintf("filter subscription model: the complete choice tree over 1 key x 2 label values x 3 filters x for-filter/immediate x 0-1 initial objects x all sequences of %d operations with every List()-window variant (%d cases)", cfg.maxSteps, cases)
+		if stride > 1 {
+			what += fmt.Sprintf(" — this run: every %d-th case only (not exhaustive)", stride)
+		}
+		statExhaustive("C06", what)
+	}
+	_ = run
+}
+
+type fsPub struct {
+	key    [2]string
+	del    bool
+	labels map[string]string
+}
+
+type fsStep struct {
+	kind         string // publish, burst, parentReady, refilter, noop
+	pubs         []fsPub
+	gate, atCall bool
+	during       []fsPub
+	f            int
+}
+
+type fsScript struct {
+	deferReady bool
+	f0         int
+	initial    []fsPub
+	steps      []fsStep
+	ffinal     int
+}
+
+// fsDrawScript makes every choice of a case up front (pure: no library call),
+// so that the shape of the choice tree depends on the choices alone.
+func fsDrawScript(ch fsChooser, cfg fsCfg) fsScript {
+	sc := fsScript{ffinal: -1}
+	sc.deferReady = ch.intn("forFilter", 0, 1) == 1
+	sc.f0 = cfg.filters[ch.intn("f0", 0, len(cfg.filters)-1)]
+	pub := func(allowDel bool) fsPub {
+		k := cfg.keys[ch.intn("k", 0, len(cfg.keys)-1)]
+		if allowDel && ch.intn("del", 0, cfg.delOneIn-1) == 0 {
+			return fsPub{key: k, del: true}
+		}
+		return fsPub{key: k, labels: cfg.labelSets[ch.intn("labels", 0, len(cfg.labelSets)-1)]}
+	}
+	for i, n := 0, ch.intn("initial", 0, cfg.maxInitial); i < n; i++ {
+		sc.initial = append(sc.initial, pub(false))
+	}
+	parentReady, supplied := false, !sc.deferReady
+	window := func(st *fsStep) {
+		st.gate = ch.intn("gate", 0, 1) == 1
+		if st.gate {
+			st.atCall = ch.intn("snapshotAtCall", 0, 1) == 1
+			for i, n := 0, ch.intn("during", 0, cfg.maxDuring); i < n; i++ {
+				st.during = append(st.during, pub(true))
+			}
+		}
+	}
+	ops := []string{"publish", "burst", "parentReady", "refilter", "publish", "refilter"}
+	for i, n := 0, ch.intn("steps", cfg.minSteps, cfg.maxSteps); i < n; i++ {
+		st := fsStep{kind: ops[ch.intn("op", 0, fsOpChoices(cfg)-1)]}
+		switch st.kind {
+		case "publish":
+			st.pubs = []fsPub{pub(true)}
+		case "burst":
+			for j, nb := 0, ch.intn("n", 2, cfg.maxBurst); j < nb; j++ {
+				st.pubs = append(st.pubs, pub(true))
+			}
+		case "parentReady":
+			if parentReady {
+				st.kind = "noop"
+			} else {
+				parentReady = true
+				window(&st)
+			}
+		case "refilter":
+			st.f = cfg.filters[ch.intn("f", 0, len(cfg.filters)-1)]
+			supplied = true
+			window(&st)
+		}
+		sc.steps = append(sc.steps, st)
+	}
+	if !supplied {
+		sc.ffinal = cfg.filters[ch.intn("ffinal", 0, len(cfg.filters)-1)]
+	}
+	return sc
+}
+
+func fsModelCase(t fsFailer, sc fsScript, perturb bool, pseed uint64) fsCaseInfo {
+	fam := treeFilterFamily()
+	{
 		p := newFsParent()
-		deferReady := rapid.Bool().Draw(t, "forFilter")
-		cur := rapid.IntRange(0, len(fam)-1).Draw(t, "f0")
+		deferReady := sc.deferReady
+		cur := sc.f0
 		if deferReady {
 			cur = -2 // not supplied
 		}
 		var hist []string
 		h := func(format string, args ...interface{}) { hist = append(hist, fmt.Sprintf(format, args...)) }
-		keys := [][2]string{{"a", "p"}, {"a", "q"}, {"b", "p"}, {"b", "q"}}
-		for i := 0; i < rapid.IntRange(0, 4).Draw(t, "initial"); i++ {
-			k := rapid.SampledFrom(keys).Draw(t, "k")
-			p.put(k[0], k[1], drawLabels(t))
+		for _, ip := range sc.initial {
+			p.put(ip.key[0], ip.key[1], ip.labels)
 		}
 		for len(p.evch) > 0 {
 			<-p.evch // history: a subscription created now does not see it
 		}
 		before, _ := libGoroutines()
-		plog := newPlog(rapid.Bool().Draw(t, "perturb"), rapid.Uint64().Draw(t, "pseed"))
+		plog := newPlog(perturb, pseed)
 		var fs kcache.FilterSubscription
 		if deferReady {
 			fs = kcache.VerifNewFilterSubscription(plog, p, filter.All(), true)
@@ -256,21 +466,21 @@ func TestC06_FilterSubscriptionModel(t *testing.T) {
 			n.mirrorOn = true
 			n.mu.Unlock()
 		}
-		publish := func(why string) {
-			k := rapid.SampledFrom(keys).Draw(t, "k")
-			if rapid.IntRange(0, 3).Draw(t, "del") == 0 {
+		publish := func(why string, pb fsPub) {
+			k := pb.key
+			if pb.del {
 				if p.del(k[0], k[1]) {
 					h("%s: del %s/%s", why, k[0], k[1])
 				}
 				return
 			}
-			l := drawLabels(t)
-			rv := p.put(k[0], k[1], l)
-			h("%s: put %s/%s%s -> rv %d", why, k[0], k[1], labelsStr(l), rv)
+			rv := p.put(k[0], k[1], pb.labels)
+			h("%s: put %s/%s%s -> rv %d", why, k[0], k[1], labelsStr(pb.labels), rv)
 		}
 		// trigger runs op (which may make the node list its parent) with the next List() held at a gate
 		// while `during` events are published; returns whether a List call was caught
-		trigger := func(name string, op func(), apply func(), gated bool, expectList bool) {
+		trigger := func(name string, op func(), apply func(), st fsStep, expectList bool) {
+			gated := st.gate
 			wasReady := modelReady()
 			quietBefore := len(p.evch) == 0
 			during := 0
@@ -278,7 +488,7 @@ func TestC06_FilterSubscriptionModel(t *testing.T) {
 			if gated {
 				g = make(chan struct{})
 				p.mu.Lock()
-				p.gate, p.atCall = g, rapid.Bool().Draw(t, "snapshotAtCall")
+				p.gate, p.atCall = g, st.atCall
 				atCall := p.atCall
 				p.mu.Unlock()
 				for len(p.onList) > 0 {
@@ -306,9 +516,9 @@ func TestC06_FilterSubscriptionModel(t *testing.T) {
 				p.mu.Unlock()
 				if caught {
 					windows++
-					during = rapid.IntRange(0, 3).Draw(t, "during")
-					for i := 0; i < during; i++ {
-						publish(fmt.Sprintf("while %s holds List() (snapshot at %s)", name, map[bool]string{true: "call", false: "release"}[atCall]))
+					during = len(st.during)
+					for _, pb := range st.during {
+						publish(fmt.Sprintf("while %s holds List() (snapshot at %s)", name, map[bool]string{true: "call", false: "release"}[atCall]), pb)
 					}
 				}
 				close(g)
@@ -341,32 +551,30 @@ func TestC06_FilterSubscriptionModel(t *testing.T) {
 				}
 			}
 		}
-		steps := rapid.IntRange(3, 16).Draw(t, "steps")
 		refilters := 0
-		for i := 0; i < steps; i++ {
-			switch rapid.SampledFrom([]string{"publish", "publish", "burst", "parentReady", "refilter", "refilter"}).Draw(t, "op") {
+		for i, st := range sc.steps {
+			switch st.kind {
+			case "noop":
+				continue
 			case "publish":
-				publish("event")
+				publish("event", st.pubs[0])
 			case "burst":
-				for j := 0; j < rapid.IntRange(2, 6).Draw(t, "n"); j++ {
-					publish("burst")
+				for _, pb := range st.pubs {
+					publish("burst", pb)
 				}
 				continue // no barrier: the next operation meets unread events in the node's inbox
 			case "parentReady":
-				if parentReady {
-					continue
-				}
 				h("parent becomes ready")
-				trigger("parent readiness", func() { close(p.readych) }, func() { parentReady = true }, rapid.Bool().Draw(t, "gate"), !deferReady || cur != -2)
+				trigger("parent readiness", func() { close(p.readych) }, func() { parentReady = true }, st, !deferReady || cur != -2)
 			case "refilter":
-				next := rapid.IntRange(0, len(fam)-1).Draw(t, "f")
+				next := st.f
 				h("Refilter %d -> %d", cur, next)
 				var err error
 				var curFilter filter.Filter = filter.All()
 				if cur >= 0 {
 					curFilter = wrapFilter(fam[cur])
 				}
-				trigger(fmt.Sprintf("Refilter(%d -> %d)", cur, next), func() { err = fs.Refilter(wrapFilter(fam[next])) }, func() { cur = next }, rapid.Bool().Draw(t, "gate"),
+				trigger(fmt.Sprintf("Refilter(%d -> %d)", cur, next), func() { err = fs.Refilter(wrapFilter(fam[next])) }, func() { cur = next }, st,
 					parentReady && !filter.FiltersEqual(curFilter, wrapFilter(fam[next])))
 				if err != nil {
 					fail("Refilter on a live subscription failed: %v", err)
@@ -378,12 +586,12 @@ func TestC06_FilterSubscriptionModel(t *testing.T) {
 		// finish: make it ready if it is not, final check, shutdown
 		if !parentReady {
 			h("parent becomes ready")
-			trigger("parent readiness", func() { close(p.readych) }, func() { parentReady = true }, false, false)
+			trigger("parent readiness", func() { close(p.readych) }, func() { parentReady = true }, fsStep{}, false)
 		}
 		if cur == -2 {
-			next := rapid.IntRange(0, len(fam)-1).Draw(t, "ffinal")
+			next := sc.ffinal
 			h("Refilter -> %d", next)
-			trigger("the first Refilter", func() { fs.Refilter(wrapFilter(fam[next])) }, func() { cur = next }, false, false)
+			trigger("the first Refilter", func() { fs.Refilter(wrapFilter(fam[next])) }, func() { cur = next }, fsStep{}, false)
 		}
 		check("at the end")
 		// the parent terminates: the node closes its Events() and is Done
@@ -402,8 +610,15 @@ func TestC06_FilterSubscriptionModel(t *testing.T) {
 		if c, dump := waitLibGoroutinesAtMost(before, wedgeBoundNow()); c > before {
 			fail("%d library goroutines left after the parent terminated:\n%s", c-before, dump)
 		}
-		statCase("C06", hashString("fsmodel;"+strings.Join(hist, ";")), windows > 0 && refilters > 0, func() interface{} {
-			return map[string]interface{}{"mode": "filter subscription over a harness-owned parent", "history": hist}
-		}, "filter_subscription_model", fmt.Sprintf("fsmodel_for_filter=%v", deferReady), fmt.Sprintf("fsmodel_list_windows=%d", min(windows, 3)), fmt.Sprintf("fsmodel_exact_baseline=%v", n.mirrorOn))
-	})
+		return fsCaseInfo{hist: hist, windows: windows, refilters: refilters, deferReady: deferReady, baseline: n.mirrorOn}
+	}
+}
+
+// fsOpChoices: the enumeration draws each operation kind once; the random
+// search draws publish and refilter twice as often.
+func fsOpChoices(cfg fsCfg) int {
+	if cfg.maxSteps <= 3 {
+		return 4
+	}
+	return 6
 }
